@@ -1,18 +1,28 @@
-(* C19, parse half: the error sites of parse/parse.go, enumerated.
+(* C19, parse half: the error sites of package parse, enumerated.
 
    [parser_error_sites] (Generated/Tables.v, tablegen 48-parser-error-sites) lists every call of
-   errorf / error / unexpected / expect / errorAt in parse.go outside the reporting functions, as rows
-   (function, kind, argument, binding of the token variable, occurrences), re-read from the source on
-   every run.  [covered_sites] is the reviewed list: each row is a site whose choice of token is
+   errorf / error / unexpected / expect / errorAt in package parse outside the reporting functions, as rows
+   (function, kind, argument, binding of the token complained about, occurrences), re-read from the
+   source on every run.  The function of a row is the REVIEWED function the site belongs to after
+   inlining: every function that is not a key of [cover_map] is a helper, whose sites are counted at
+   each of its call sites (with its parameters replaced by what the call passes), so the table is the
+   multiset of (reviewed function, kind, token the error is reported at).  Names of locals and of
+   helpers do not occur in it and its order does not matter ([site_diff] both ways): splitting a helper
+   off a reviewed function, inlining one, reordering and renaming locals leave the three theorems below
+   alone (checked on seeded/harmless/8, harmless2/1-4).
+   [covered_sites] is the reviewed list: each row is a site whose choice of token is
    covered by the window theorem (Proofs/ErrPosWindow.v for the expression half, ErrPosWindowCmd.v
    for the command half; [cover_map]: the model procedures that carry the sites of a Go function).
-   A call site ADDED to parse.go (or one whose token argument / binding changes) is a row of
+   A call site ADDED anywhere in package parse (in a reviewed function, in a helper old or new, in a new
+   function) or one that complains about a token bound another way is a row of
    [parser_error_sites] that is not in [covered_sites]: [uncovered_sites] is then not empty and
    [no_uncovered_site] no longer checks -- a broken obligation of C19 naming the site.  The reviewed
-   facts the table records: `unexpected` is only ever handed a variable bound by next / expect /
+   facts the table records: `unexpected` is only ever handed a token bound by next / expect /
    nextNonComment / peek or a parameter that callers bind that way (the model passes the token the
    last c_next returned; textOrTag's parameter is the one case reported one item back), and errorf
-   takes token[0] or token[peekCount-1] ([parser_errorf_token], Model/Token.v err_tok). *)
+   takes token[0] or token[peekCount-1] ([parser_errorf_token], Model/Token.v err_tok).
+   What the table does NOT see: WHERE in a function a site stands (an errorf moved across a backup):
+   that is the correspondence check's. *)
 From Soy Require Import Model.Bytes Generated.Tables.
 From Coq Require Import List.
 Import ListNotations.
@@ -26,52 +36,52 @@ Definition site_diff (l1 l2 : list site) : list site :=
   filter (fun x => negb (existsb (site_eqb x) l2)) l1.
 
 Definition covered_sites : list site := Eval vm_compute in [
-  (b "textOrTag", b "unexpected", b "token", b "next+param", 1);
+  (b "textOrTag", b "unexpected", b "", b "next+param", 1);
   (b "beginTag", b "expect", b "itemRightDelim", b "", 6);
   (b "beginTag", b "expect", b "itemText", b "", 1);
   (b "beginTag", b "expect", b "itemLeftDelim", b "", 1);
   (b "beginTag", b "expect", b "itemLiteralEnd", b "", 1);
-  (b "beginTag", b "unexpected", b "token", b "next", 1);
+  (b "beginTag", b "unexpected", b "", b "next", 1);
   (b "parsePrint", b "expect", b "itemIdent", b "", 1);
-  (b "parsePrint", b "unexpected", b "tok", b "next", 1);
+  (b "parsePrint", b "unexpected", b "", b "next", 1);
   (b "parseAlias", b "expect", b "itemIdent", b "", 1);
-  (b "parseAlias", b "unexpected", b "next", b "next", 1);
+  (b "parseAlias", b "unexpected", b "", b "next", 1);
   (b "parseLet", b "expect", b "itemDollarIdent", b "", 1);
   (b "parseLet", b "expect", b "itemRightDelimEnd", b "", 1);
   (b "parseLet", b "expect", b "itemRightDelim", b "", 1);
-  (b "parseLet", b "unexpected", b "next", b "next", 1);
+  (b "parseLet", b "unexpected", b "", b "next", 1);
   (b "parseCss", b "expect", b "itemText", b "", 1);
   (b "parseCss", b "expect", b "itemRightDelim", b "", 1);
   (b "parseCall", b "errorf", b "", b "", 1);
   (b "parseCall", b "expect", b "itemLeftDelim", b "", 1);
   (b "parseCall", b "expect", b "itemCallEnd", b "", 1);
   (b "parseCall", b "expect", b "itemRightDelim", b "", 1);
-  (b "parseCall", b "unexpected", b "tok", b "next", 1);
-  (b "parseCallParams", b "unexpected", b "initial", b "nextNonComment", 2);
+  (b "parseCall", b "unexpected", b "", b "next", 1);
+  (b "parseCallParams", b "unexpected", b "", b "nextNonComment", 2);
   (b "parseCallParams", b "errorf", b "", b "", 2);
   (b "parseCallParams", b "expect", b "itemIdent", b "", 1);
   (b "parseCallParams", b "expect", b "itemRightDelimEnd", b "", 2);
   (b "parseCallParams", b "expect", b "itemRightDelim", b "", 3);
-  (b "parseCallParams", b "unexpected", b "tok", b "next", 1);
+  (b "parseCallParams", b "unexpected", b "", b "next", 1);
   (b "parseSwitch", b "expect", b "itemRightDelim", b "", 2);
-  (b "parseSwitch", b "unexpected", b "tok", b "next", 3);
-  (b "parseCase", b "unexpected", b "tok", b "next", 1);
+  (b "parseSwitch", b "unexpected", b "", b "next", 3);
+  (b "parseCase", b "unexpected", b "", b "next", 1);
   (b "parseFor", b "expect", b "itemDollarIdent", b "", 1);
   (b "parseFor", b "expect", b "itemIdent", b "", 1);
-  (b "parseFor", b "unexpected", b "intoken", b "expect", 1);
+  (b "parseFor", b "unexpected", b "", b "expect", 1);
   (b "parseFor", b "expect", b "itemRightDelim", b "", 3);
   (b "parseIf", b "expect", b "itemRightDelim", b "", 2);
   (b "parseSoyDoc", b "expect", b "itemIdent", b "", 1);
-  (b "parseSoyDoc", b "unexpected", b "next", b "next", 1);
-  (b "parseAttrs", b "unexpected", b "tok", b "next", 2);
+  (b "parseSoyDoc", b "unexpected", b "", b "next", 1);
+  (b "parseAttrs", b "unexpected", b "", b "next", 2);
   (b "parseAttrs", b "expect", b "itemEquals", b "", 1);
   (b "parseAttrs", b "expect", b "itemString", b "", 1);
   (b "parseAttrs", b "error", b "", b "", 1);
   (b "parseMsg", b "errorf", b "", b "", 2);
   (b "parseMsg", b "expect", b "itemRightDelim", b "", 2);
-  (b "parsePlural", b "unexpected", b "tok", b "param", 1);
+  (b "parsePlural", b "unexpected", b "", b "param", 1);
   (b "parsePlural", b "errorf", b "", b "", 2);
-  (b "notmsg", b "unexpected", b "tok", b "param", 1);
+  (b "notmsg", b "unexpected", b "", b "param", 1);
   (b "parseNamespace", b "errorf", b "", b "", 1);
   (b "parseNamespace", b "expect", b "itemIdent", b "", 1);
   (b "parseNamespace", b "expect", b "itemRightDelim", b "", 1);
@@ -84,14 +94,14 @@ Definition covered_sites : list site := Eval vm_compute in [
   (b "parseHeaderParam", b "expect", b "itemRightDelim", b "", 1);
   (b "boolAttr", b "errorf", b "", b "", 1);
   (b "parseExprFirstTerm", b "expect", b "itemRightParen", b "", 1);
-  (b "parseExprFirstTerm", b "unexpected", b "tok", b "next", 1);
+  (b "parseExprFirstTerm", b "unexpected", b "", b "next", 1);
   (b "parseDataRef", b "error", b "", b "", 1);
   (b "parseDataRef", b "expect", b "itemRightBracket", b "", 1);
   (b "parseListOrMap", b "expect", b "itemRightBracket", b "", 1);
-  (b "parseListOrMap", b "unexpected", b "tok", b "next", 1);
-  (b "parseListLiteral", b "unexpected", b "next", b "next", 1);
+  (b "parseListOrMap", b "unexpected", b "", b "next", 1);
+  (b "parseListLiteral", b "unexpected", b "", b "next", 1);
   (b "parseMapLiteral", b "errorf", b "", b "", 1);
-  (b "parseMapLiteral", b "unexpected", b "next", b "next", 1);
+  (b "parseMapLiteral", b "unexpected", b "", b "next", 1);
   (b "parseMapLiteral", b "expect", b "itemString", b "", 1);
   (b "parseMapLiteral", b "error", b "", b "", 1);
   (b "parseMapLiteral", b "expect", b "itemColon", b "", 1);
@@ -99,7 +109,7 @@ Definition covered_sites : list site := Eval vm_compute in [
   (b "newValueNode", b "error", b "", b "", 2);
   (b "newValueNode", b "errorf", b "", b "", 1);
   (b "newFunctionNode", b "errorf", b "", b "", 1);
-  (b "newFunctionNode", b "unexpected", b "tok", b "next+param", 1)
+  (b "newFunctionNode", b "unexpected", b "", b "next+param", 1)
 ].
 
 (* Go function -> the procedures of Model/ExprParser.v / Model/Parser.v that carry its sites (and the lemma of the window pass) *)
@@ -148,6 +158,10 @@ Proof. vm_compute. reflexivity. Qed.
 (* ... and each belongs to a function whose model procedures the window pass goes through *)
 Theorem sites_have_model_procedures :
   forallb (fun s : site => let '(f, _, _, _, _) := s in existsb (fun p => bstr_eqb f (fst p)) cover_map) parser_error_sites = true.
+Proof. vm_compute. reflexivity. Qed.
+
+(* tablegen inlined exactly the functions that are not reviewed: its list of roots is [cover_map]'s keys *)
+Theorem roots_are_cover_map : parser_error_site_roots = map fst cover_map.
 Proof. vm_compute. reflexivity. Qed.
 
 (* the shapes tablegen checked in errorAt / errorf *)
